@@ -108,6 +108,10 @@ pub struct Run {
     pub t0: Instant,
 }
 
+pub fn profile() -> String {
+    std::env::var("VERIF_PROFILE").unwrap_or_else(|_| if cfg!(debug_assertions) { "checked".into() } else { "release".into() })
+}
+
 fn seed() -> i64 {
     std::env::var("VERIF_SEED").ok().and_then(|s| s.parse().ok()).unwrap_or(0)
 }
@@ -163,8 +167,8 @@ impl Run {
             }
             new_violations += 1;
             if new_violations <= 25 {
-                let path = dir.join("replays").join(format!("{}-{}.json", self.prop, new_violations));
-                let body = json!({"property": self.prop, "key": v.key, "what": v.what, "case": v.case});
+                let path = dir.join("replays").join(format!("{}-{}-{}.json", self.prop, profile(), new_violations));
+                let body = json!({"property": self.prop, "key": v.key, "what": v.what, "case": v.case, "profile": profile()});
                 let _ = std::fs::write(&path, serde_json::to_string_pretty(&body).unwrap());
                 println!("VIOLATION property={} replay={}", self.prop, path.display());
                 println!("  key:  {}", v.key);
@@ -186,6 +190,8 @@ impl Run {
         cov.insert("violating_executions".into(), json!(acc.violation_count));
         cov.insert("distinct_violation_signatures".into(), json!(acc.violations.len()));
         cov.insert("known_finding_signatures_hit".into(), json!(known_hits));
+        cov.insert("build_profile".into(), json!(profile()));
+        cov.insert("debug_assertions".into(), json!(cfg!(debug_assertions)));
         for (k, v) in &acc.notes {
             cov.insert(k.clone(), v.clone());
         }
